@@ -69,6 +69,11 @@ var ifaceSums = map[string][]string{
 // opaqueTypes: types whose methods are outside the fragment (float32 arithmetic, reflection). Their values and methods
 // are taken from Lib/GoOpaque.v, which instantiates them with the hand-written model; the translated callers
 // (datagram decoder, list encoder, compound packet) are then about "this Go text, with these two types as modelled".
+// oracleFuncs: package functions outside the fragment whose RESULT enters a translated function: each call site becomes
+// an extra parameter of the translated function (the equivalence lemma instantiates it with the model's value).
+// wireSize is the reflection-driven size computation of packet_buffer.go.
+var oracleFuncs = map[string]bool{"wireSize": true}
+
 var opaqueTypes = map[string]bool{"ExtendedReport": true, "ReceiverEstimatedMaximumBitrate": true}
 
 // fuelHints: iteration bounds for loops whose condition alone does not bound them, by function and condition text.
@@ -181,16 +186,17 @@ type structInfo struct {
 }
 
 type fnSig struct {
-	key     string // "Recv.Name" or "Name"
-	coq     string
-	pure    bool
-	ptrRecv bool
-	hasRecv bool
-	recvTy  string
-	recvCoq string
-	hasErr  bool
-	nres    int // non-error results
-	resTy   []tyInfo
+	key      string // "Recv.Name" or "Name"
+	coq      string
+	pure     bool
+	ptrRecv  bool
+	hasRecv  bool
+	recvTy   string
+	recvCoq  string
+	noracles int
+	hasErr   bool
+	nres     int // non-error results
+	resTy    []tyInfo
 }
 
 type translator struct {
@@ -262,7 +268,11 @@ func (t *translator) needStruct(name string) *structInfo {
 	for i := 0; i < st.NumFields(); i++ {
 		f := st.Field(i)
 		ti := classify(f.Type())
-		if f.Embedded() {
+		if f.Name() == "_" {
+			s.skipped = append(s.skipped, "_")
+			continue
+		}
+		if _, isI := f.Type().Underlying().(*types.Interface); f.Embedded() && isI {
 			s.skipped = append(s.skipped, f.Name())
 			continue
 		}
@@ -459,6 +469,12 @@ type ctx struct {
 	loops   []loopInfo
 	aliases map[types.Object]alias // an interface or pointer variable that refers to another local's struct
 	dyn     map[types.Object]bool  // error variables declared with `var`: a bool "is non-nil" at run time
+	oracles *oracleSet
+}
+
+type oracleSet struct {
+	bySite map[*ast.CallExpr]string
+	order  []string
 }
 
 type alias struct {
@@ -753,6 +769,9 @@ func (t *translator) ifaceDispatch(n ast.Node, iface, method string) *fnSig {
 }
 
 func (c *ctx) args(call *ast.CallExpr, recv ast.Expr) string {
+	if sg, _ := c.calleeQuiet(call); sg != nil && sg.noracles > 0 {
+		c.t.fail(call, "call of %s, whose translation takes oracle parameters", sg.key)
+	}
 	var parts []string
 	if recv != nil {
 		parts = append(parts, c.expr(recv))
@@ -1193,6 +1212,17 @@ func (c *ctx) call(x *ast.CallExpr) string {
 		}
 		c.t.fail(x, "binary.BigEndian.%s as an expression", name)
 	}
+	if id, ok := x.Fun.(*ast.Ident); ok && oracleFuncs[id.Name] {
+		if fo, isF := c.objOf(id).(*types.Func); isF && fo.Pkg() == c.t.l.pkg {
+			if n, seen := c.oracles.bySite[x]; seen {
+				return n
+			}
+			n := fmt.Sprintf("o_%s_%d", id.Name, len(c.oracles.order)+1)
+			c.oracles.bySite[x] = n
+			c.oracles.order = append(c.oracles.order, n)
+			return n
+		}
+	}
 	sig, recv := c.callee(x)
 	if sig == nil {
 		c.t.fail(x, "call of %s (outside the package or the fragment)", types.ExprString(x.Fun))
@@ -1615,6 +1645,18 @@ func (c *ctx) assign(s *ast.AssignStmt, cont kont) string {
 		return d.assignTo(s.Lhs[i], names[i], func(d2 *ctx) string { return chain(i+1, d2) })
 	}
 	return wrap(binds, b.String()+chain(0, c), c.depth)
+}
+
+func (c *ctx) calleeQuiet(call *ast.CallExpr) (sig *fnSig, recv ast.Expr) {
+	defer func() {
+		if r := recover(); r != nil {
+			if _, isU := r.(unsupported); !isU {
+				panic(r)
+			}
+			sig, recv = nil, nil
+		}
+	}()
+	return c.calleeOrNil(call)
 }
 
 func (c *ctx) calleeOrNil(call *ast.CallExpr) (sig *fnSig, recv ast.Expr) {
@@ -2783,7 +2825,8 @@ func (t *translator) translate(key string) {
 		t.lifted = nil
 		t.liftN = 0
 		c := &ctx{t: t, fd: fd, sig: sig, vars: map[types.Object]string{}, errs: map[types.Object]int{}, owned: map[types.Object]bool{},
-			views: map[types.Object]view{}, poison: map[types.Object]bool{}, counter: map[string]int{}, depth: 1, aliases: map[types.Object]alias{}, dyn: map[types.Object]bool{}}
+			views: map[types.Object]view{}, poison: map[types.Object]bool{}, counter: map[string]int{}, depth: 1, aliases: map[types.Object]alias{}, dyn: map[types.Object]bool{},
+			oracles: &oracleSet{bySite: map[*ast.CallExpr]string{}}}
 		var params []string
 		if sig.hasRecv {
 			f := fd.Recv.List[0]
@@ -2868,6 +2911,10 @@ func (t *translator) translate(key string) {
 			}
 			return d.finish(nil)
 		})
+		for _, o := range c.oracles.order {
+			params = append(params, fmt.Sprintf("(%s : Z)", o))
+		}
+		sig.noracles = len(c.oracles.order)
 		pos := t.l.fset.Position(fd.Pos())
 		head := fmt.Sprintf("(* %s  func %s *)\nDefinition %s %s : %s :=\n", shortFile(pos.Filename), key, sig.coq, strings.Join(params, " "), rt)
 		return strings.Join(t.lifted, "") + head + namedInit + strings.TrimRight(body, "\n") + ".\n\n", t.usedMono
